@@ -28,6 +28,9 @@ type RoutineContainer struct {
 	routine *runningRoutine
 	// retryBo is the retry backoff if retrying is enabled.
 	retryBo cbackoff.BackOff
+	// prevExitedCh is closed when the instance of the routine that was removed
+	// by SetRoutine(nil) has exited. may be nil
+	prevExitedCh <-chan struct{}
 }
 
 // NewRoutineContainer constructs a new RoutineContainer.
@@ -172,15 +175,27 @@ func (k *RoutineContainer) setRoutineLocked(routine Routine, broadcast func()) (
 		k.routine = nil
 	}
 
+	// the next instance must wait for the previous one even if it
+	// is not started right now or a nil routine was set in between.
+	waitCh := prevExitedCh
+	if prevRoutine == nil {
+		waitCh = k.prevExitedCh
+	}
+	k.prevExitedCh = nil
+
 	if routine != nil {
 		r := newRunningRoutine(k, routine)
+		r.exitedCh = waitCh
 		k.routine = r
 		if k.ctx != nil {
-			k.routine.start(k.ctx, prevExitedCh, false)
+			k.routine.start(k.ctx, waitCh, false)
 		}
 		broadcast()
-	} else if wasReset {
-		broadcast()
+	} else {
+		k.prevExitedCh = waitCh
+		if wasReset {
+			broadcast()
+		}
 	}
 
 	return prevExitedCh, wasReset
@@ -298,6 +313,9 @@ func (r *runningRoutine) execute(
 		select {
 		case <-ctx.Done():
 			err = context.Canceled
+			// our successor waits on exitedCh only: do not close it
+			// before the previous instance has returned as well.
+			<-waitCh
 		case <-waitCh:
 		}
 	} else if ctx.Err() != nil {
